@@ -10,6 +10,7 @@ import SakuraVerif.Driver.TimeOps
 import SakuraVerif.Model.Tie
 import SakuraVerif.Driver.ReserveOps
 import SakuraVerif.Driver.LexOps
+import SakuraVerif.Driver.ExecOps
 import SakuraVerif.Props.C09
 open Sakura Sakura.Wire Sakura.Driver
 
@@ -17,6 +18,7 @@ def handle (line : String) : String :=
   match line.trimAscii.toString.splitOn " " with
   | ["ping"] => "ok pong"
   | ["lex", src] => "ok " ++ lexOp src
+  | ["exec", toks] => "ok " ++ execOp toks
   | ["generate", tb, pf, tracks] =>
       "ok bin=" ++ hex (generateSong (parseInt tb) (parseInt pf) (parseTracks tracks))
   | ["spec.c01", bin, n, tb] => "ok " ++ specC01 (unhex bin) (parseNat n) (parseNat tb)
